@@ -4,7 +4,8 @@ Correspondence: the real `PyCodeGenerator(...).py_code` (parsed with `ast`, and 
 unparsable output is still compared) against the Lean model `gsInfer`/`gsModule` (driver op "c19").
 Oracle: the generated source is imported as a real module, the JSONWizard root class loads the source document,
 values have the inferred types, every key has a field; generation twice / after an unrelated document is
-identical; the CLI error path is run as a subprocess on temp files.
+identical, and identical across interpreter processes with different hash seeds (`run_hashseed`); the CLI error path is run
+as a subprocess on temp files.
 """
 from __future__ import annotations
 
@@ -16,6 +17,7 @@ import itertools
 import json
 import keyword
 import os
+import random
 import shutil
 import subprocess
 import sys
@@ -292,6 +294,204 @@ def gen_keyless(rng, prof):
         h = holder(rng.choice([2, 3]))
         return [h, json.loads(json.dumps(h))][:rng.choice([1, 2])], layout
     return [lol()[0] for _ in range(rng.choice([1, 2]))], layout
+
+
+# keys whose humanised singular (the name of the class made for the objects of a list under the key) is EMPTY ('s' -> '': the
+# generic `s$` rule strips the whole word), blank ('_s' -> ' '), or degenerate (one letter left over, one-letter keys, plural
+# endings on their own, digits only).  The generator has to fall back to its numbered default names for the first two groups.
+DEGENERATE_KEYS = {
+    'empty': ['s', 'S', '_s', '-s', ' s', '__s', 's', 'S', '_S', '-S', '_', '-', '__'],
+    'short': ['es', 'Es', 'ES', 'ies', 'ss', 'SS', 'us', 'ys', 'xes', 'oes', 'ves', 'ses', 'zes', 'ches', 'shes', 's_', 's-s', 'ees'],
+    'letter': list('abcdefghjkmnpqrtuvwxyz') + list('ABDEKMNPQRTXZ'),
+    'digits': ['0', '7', '42', '007', '3s', '0s', '1_0'],
+}
+PLAIN_FIELDS = ['name', 'id', 'count', 'total', 'label', 'flag', 'kind', 'score', 'a', 'b', 'k', 'n', 'p', 'v', 'w', 'x']
+
+
+def gen_degenerate(rng, prof):
+    """DIMENSION class-generating positions whose key gives an empty / blank / one-letter / digits-only name: such keys holding
+    lists of objects, lists of lists (of objects, of scalars), plain objects and lists of scalars; at the root object, below another
+    key, in the sibling objects of a list (merged), nested inside each other (the numbered default names Data<level> then have to
+    stay distinct from each other and from the key-named classes).  Sibling objects have the same keys and one kind per key, so the
+    only unusual thing about the document is the key."""
+    prof.nulls = 0.0
+    weights = rng.choice([('empty',) * 6 + ('short',) * 2 + ('letter',) * 2 + ('digits',),
+                          ('empty',) * 3 + ('short',) * 3 + ('letter',) * 3,
+                          ('empty',) * 8 + ('digits',)])
+
+    def dkey(used_snakes):
+        for _ in range(20):
+            k = rng.choice(DEGENERATE_KEYS[rng.choice(weights)])
+            if _snake(k) not in used_snakes:
+                return k
+        return None
+
+    def leaf():
+        return ('s', [rng.choice(['int', 'str', 'bool', 'float'])])
+
+    def obj(depth, want=0):
+        fields, used = [], set()
+        for _ in range(rng.randint(1, 3)):
+            k = rng.choice(PLAIN_FIELDS)
+            if _snake(k) not in used:
+                used.add(_snake(k))
+                fields.append((k, leaf()))
+        n_deg = want or (rng.choice([0, 1, 1, 2]) if depth > 0 else 0)
+        for _ in range(n_deg):
+            k = dkey(used)
+            if k is not None:
+                used.add(_snake(k))
+                fields.insert(rng.randint(0, len(fields)), (k, value(depth - 1)))
+        return ('o', fields)
+
+    def value(depth):
+        shape = rng.choice(['lo', 'lo', 'lo', 'lo', 'll', 'll', 'o', 'o', 'ls', 'lls'])
+        if shape == 'lo':
+            return ('l', [obj(depth)])
+        if shape == 'll':
+            # ONE inner list (as in gen_keyless): several inner lists of objects at one position are the recorded shapes
+            # gs-union-with-list / gs-duplicate-class-name (every inner list makes its own Data<level> classes)
+            inner = ('l', [obj(depth)])
+            return ('l', [inner if rng.random() < 0.8 else ('l', [inner], 1)], 1)
+        if shape == 'o':
+            return obj(depth)
+        if shape == 'ls':
+            return ('l', [leaf()])
+        return ('l', [('l', [leaf()])])
+
+    def inst(t):
+        if t[0] == 's':
+            return scalar_of(rng, t[1][0])
+        if t[0] == 'o':
+            return {k: inst(sub) for k, sub in t[1]}
+        return [inst(t[1][0]) for _ in range(t[2] if len(t) > 2 else rng.choice([1, 1, 2, 2, 3]))]
+
+    layout = rng.choice(['root-object', 'root-object', 'root-object', 'root-array', 'root-array', 'below-key', 'in-list'])
+    top = obj(rng.choice([1, 1, 2]), want=rng.choice([1, 1, 2, 3]))
+    if layout == 'root-object':
+        return inst(top), layout
+    if layout == 'root-array':
+        return [inst(top) for _ in range(rng.randint(1, 3))], layout
+    k = pick_key(rng, prof, set(), True) or 'holder'
+    if layout == 'below-key':
+        return {k: inst(top), 'n': scalar_of(rng, 'int')}, layout
+    return {k: [inst(top) for _ in range(rng.randint(1, 3))]}, layout
+
+
+# ----------------------------------------------------------------------------- documents for the cross-process comparison
+
+NATIVE_KINDS = ['int', 'float', 'bool', 'str', 'null']
+STRING_KINDS = ['date', 'time', 'datetime', 'intstr', 'floatstr', 'boolstr']
+
+
+def gen_manytypes(rng, prof):
+    """DIMENSION positions that collect SEVERAL scalar types, and collect them in different ways: one list holding values of many
+    types (at several depths); the lists the same key takes in sibling objects, where a later sibling's list brings in two or more
+    types the merged list did not have yet (one merge step adds several members at once), also two levels down and inside lists of
+    lists; one scalar key taking several types across siblings.  The order of the members of the resulting Union is part of the
+    generated text: these documents are the core of the sample that is generated in several interpreter processes with different
+    hash seeds (`run_hashseed`) and compared byte for byte; they go through the ordinary oracle / model correspondence as well."""
+    prof.nulls = 0.0
+    kinds_pool = NATIVE_KINDS + (STRING_KINDS + ['str'] * 3 if rng.random() < 0.25 else [])
+
+    def values(kinds):
+        vals = [scalar_of(rng, k) for k in kinds for _ in range(rng.choice([1, 1, 2]))]
+        if rng.random() < 0.7:
+            rng.shuffle(vals)
+        return vals
+
+    def sibling_lists(n):
+        """the lists one key takes in n sibling objects: the first has 0-2 kinds, every later one 2-4 kinds, mostly new ones"""
+        pool = list(kinds_pool)
+        rng.shuffle(pool)
+        first = [pool.pop() for _ in range(rng.choice([0, 0, 1, 1, 2]))]
+        out, seen = [values(first)], list(first)
+        for _ in range(n - 1):
+            new = [pool.pop() for _ in range(min(len(pool), rng.choice([2, 2, 3, 4])))]
+            old = rng.sample(seen, min(len(seen), rng.choice([0, 1]))) if seen else []
+            out.append(values(new + old))
+            seen += new
+        return out
+
+    def key(used):
+        k = pick_key(rng, prof, used, True) or 'vals%d' % len(used)
+        used.add(k)
+        return k
+
+    def siblings(n, depth):
+        used = set()
+        ks = [key(used) for _ in range(rng.choice([1, 1, 2]))]
+        cols = {k: sibling_lists(n) for k in ks}
+        idk = pick_key(rng, prof, used, False) if rng.random() < 0.6 else None
+        sk = pick_key(rng, prof, used | {idk}, False) if rng.random() < 0.4 else None
+        sk_kinds = rng.sample(NATIVE_KINDS[:4], rng.choice([2, 3, 4]))
+        deep = key(used) if depth > 0 and rng.random() < 0.6 else None
+        deep_rows = [siblings(rng.randint(1, 2), depth - 1) for _ in range(n)] if deep else None
+        rows = []
+        for i in range(n):
+            o = {}
+            if idk:
+                o[idk] = i + 1
+            for k in ks:
+                o[k] = cols[k][i]
+            if sk:
+                o[sk] = scalar_of(rng, sk_kinds[i % len(sk_kinds)])
+            if deep:
+                o[deep] = deep_rows[i]
+            rows.append(o)
+        return rows
+
+    def mixed_nest(depth):
+        used = set()
+        o = {key(used): values(rng.sample(kinds_pool, rng.choice([2, 3, 4])))}
+        if depth > 0:
+            if rng.random() < 0.7:
+                o[key(used)] = mixed_nest(depth - 1)
+            if rng.random() < 0.4:
+                o[key(used)] = [mixed_nest(depth - 1)]
+        return o
+
+    layout = rng.choice(['root-array', 'root-array', 'below-key', 'below-key', 'two-levels', 'two-levels', 'mixed-at-depths',
+                         'list-of-lists'])
+    n = rng.choice([2, 2, 3, 3, 4])
+    if layout == 'root-array':
+        return siblings(n, 0), layout
+    if layout == 'below-key':
+        used = set()
+        doc = {key(used): siblings(n, 0)}
+        if rng.random() < 0.4:
+            doc[key(used)] = values(rng.sample(kinds_pool, rng.choice([2, 3])))
+        return doc, layout
+    if layout == 'two-levels':
+        rows = siblings(n, 1)
+        return (rows if rng.random() < 0.5 else {key(set()): rows}), layout
+    if layout == 'mixed-at-depths':
+        return mixed_nest(rng.choice([1, 2, 3])), layout
+    return {key(set()): sibling_lists(n)}, layout            # the lists are the elements of one list
+
+
+PLAIN_PROFILE_OFF = ('bad_keys', 'uni_keys', 'hetero', 'mixed', 'case_dups', 'underscores', 'clash', 'oddnum', 'repeat', 'union_scalars',
+                     'list_in_list')
+
+
+def gen_family_doc(rng, family):
+    prof = Prof(rng)
+    for a in PLAIN_PROFILE_OFF:
+        setattr(prof, a, False)
+    if family != 'degenerate-name':
+        doc, layout = gen_manytypes(rng, prof)
+        return doc, [family, layout]
+    # Two positions that the reference naming gives ONE class name (two key-less / empty-name lists reaching the same Data<level>
+    # on different branches, a one-letter key repeated at two paths) are the recorded shape gs-duplicate-class-name
+    # (findings/gs-duplicate-class-name.py): kept out of this family, whose point is the name of each single position.
+    for _ in range(40):
+        prof.used = set()
+        doc, layout = gen_degenerate(rng, prof)
+        if max(ref_class_names(doc).values()) < 2:
+            break
+    else:
+        doc, layout = {rng.choice(DEGENERATE_KEYS['empty']): [{'a': scalar_of(rng, 'int')}], 'n': 1}, 'fallback'
+    return doc, [family, layout]
 
 
 def gen_doc(rng):
@@ -1169,6 +1369,112 @@ def replay_history(case):
     return dict(violated=bool(x.failures), failures=x.failures)
 
 
+# ----------------------------------------------------------------------------- determinism across interpreter processes
+
+HASHSEED_SCRIPT = r"""
+import json, sys
+import dataclass_wizard
+from dataclass_wizard.wizard_cli.schema import PyCodeGenerator
+jobs = json.loads(sys.stdin.read())
+out = []
+for text, exp, force in jobs:
+    try:
+        out.append(PyCodeGenerator(file_contents=text, experimental=exp, force_strings=force).py_code)
+    except Exception as e:
+        out.append('<raised %s>' % type(e).__name__)
+sys.stdout.write(json.dumps([dataclass_wizard.__file__, out]))
+"""
+
+HASHSEEDS = ['0', '1', '7', '42']
+
+
+def hashseed_children(jobs, seeds):
+    """the generated text of every job [document text, experimental, force_strings] in one fresh interpreter per hash seed (two
+    ordinary `wiz gs` invocations differ in exactly this way: string hash randomisation is on by default)"""
+    procs = []
+    for hs in seeds:
+        env = dict(os.environ, PYTHONPATH=str(C.REPO), PYTHONHASHSEED=str(hs))
+        procs.append(subprocess.Popen(['/venv/bin/python', '-c', HASHSEED_SCRIPT], stdin=subprocess.PIPE, stdout=subprocess.PIPE,
+                                      stderr=subprocess.PIPE, env=env, cwd='/tmp'))
+    payload = json.dumps(jobs).encode()
+    outs = []
+    for hs, p in zip(seeds, procs):
+        so, se = p.communicate(payload, timeout=600)
+        if p.returncode != 0:
+            raise RuntimeError(f'hash-seed child (PYTHONHASHSEED={hs}) failed: ' + se.decode('utf-8', 'replace')[-800:])
+        where, res = json.loads(so.decode())
+        if not where.startswith(str(C.REPO)):
+            raise RuntimeError(f'hash-seed child imported {where}, not the tree under test')
+        outs.append(res)
+    return outs
+
+
+def _first_diff(a, b):
+    la, lb = a.split('\n'), b.split('\n')
+    for x, y in zip(la, lb):
+        if x != y:
+            return [x, y]
+    return [f'<{len(la)} lines>', f'<{len(lb)} lines>']
+
+
+def run_hashseed(ctx, sample, seeds):
+    """`sample`: [(document, profile, {(experimental, force_strings): source generated in this process})].  Generation must be
+    deterministic: the same document gives byte-identical source in every interpreter process, whatever its hash seed, and the same
+    as in this process (where many other documents were generated before; this process's text is the one the oracle imported and
+    loaded the document with)."""
+    jobs, meta = [], []
+    for doc, prof, srcs in sample:
+        text = json.dumps(doc, ensure_ascii=False)
+        for exp, force in FLAGS:
+            jobs.append([text, exp, force])
+            meta.append((doc, prof, exp, force, srcs.get((exp, force))))
+    if not jobs:
+        return
+    outs = hashseed_children(jobs, seeds)
+    for n, (doc, prof, exp, force, here) in enumerate(meta):
+        case = {'doc': doc, 'experimental': exp, 'force_strings': force, 'profile': prof, 'hashseeds': list(seeds)}
+        ctx.seen('hashseed', case)
+        texts = [o[n] for o in outs]
+        groups = {}
+        for hs, t in zip(seeds, texts):
+            groups.setdefault(t, []).append(hs)
+        if len(groups) > 1:
+            (t1, s1), (t2, s2) = list(groups.items())[:2]
+            ctx.fail('hashseed', case, f'the same document gives {len(groups)} different sources in interpreter processes that differ only '
+                     f'in PYTHONHASHSEED ({s1} vs {s2}): {_first_diff(t1, t2)!r}'[:500],
+                     detail=dict(groups=[[hs, t[:1500]] for t, hs in groups.items()][:4]))
+        elif here is not None and texts[0] != here:
+            ctx.fail('hashseed:inprocess', case, 'the source generated in a fresh interpreter differs from the one generated in the checking '
+                     f'process (after other generations): {_first_diff(texts[0], here)!r}'[:500],
+                     detail=dict(fresh=texts[0][:1500], here=here[:1500]))
+
+
+def replay_hashseed(case):
+    jobs = [[json.dumps(case['doc'], ensure_ascii=False), case['experimental'], case['force_strings']]]
+    seeds = case.get('hashseeds') or HASHSEEDS
+    outs = hashseed_children(jobs, seeds)
+    texts = [o[0] for o in outs]
+    here = generate(jobs[0][0], case['experimental'], case['force_strings'])
+    loads = None
+    tm = TempModules()
+    try:
+        mod = tm.load(texts[0])
+        roots = root_class(mod)
+        els = [case['doc']] if isinstance(case['doc'], dict) else [e for e in case['doc'] if isinstance(e, dict)]
+        for el in els:
+            roots[0].from_dict(json.loads(json.dumps(el)))
+        loads = True
+    except BaseException as e:
+        loads = f'{type(e).__name__}: {e}'[:200]
+    finally:
+        tm.close()
+    distinct = sorted(set(texts))
+    base = set(texts[0].split('\n'))
+    return dict(violated=len(distinct) > 1 or here != texts[0], distinct_sources=len(distinct), same_in_this_process=here == texts[0],
+                first_source_loads_document=loads,
+                lines_differing_from_first={hs: [l for l in t.split('\n') if l not in base][:6] for hs, t in zip(seeds, texts)})
+
+
 # ----------------------------------------------------------------------------- the command line (subprocess)
 
 PRECIOUS = b'# existing output, must survive a failed run\nX = 1\n'
@@ -1249,6 +1555,7 @@ def check_cli(ctx, inputs):
 def eval_doc(ctx, tm, rec, doc, prof, dedup, reqs, pend, kind='gen'):
     doc_text = json.dumps(doc, ensure_ascii=False)
     in_domain = keys_model_domain(doc)
+    srcs = {}
     for exp, force in FLAGS:
         case = {'doc': doc, 'experimental': exp, 'force_strings': force, 'profile': prof}
         ctx.seen(kind, case)
@@ -1257,6 +1564,7 @@ def eval_doc(ctx, tm, rec, doc, prof, dedup, reqs, pend, kind='gen'):
         calls = rec.take()
         if src is None:
             continue
+        srcs[(exp, force)] = src
         # the generator ran twice: the second half of the calls must repeat the first
         half = len(calls) // 2
         if calls[:half] != calls[half:]:
@@ -1275,6 +1583,7 @@ def eval_doc(ctx, tm, rec, doc, prof, dedup, reqs, pend, kind='gen'):
             reqs.append({'op': 'c19', 'doc': M.enc_j(doc), 'experimental': exp, 'force_strings': force, 'dedup': dedup,
                          'std': std_tables(doc, calls[:half])})
             pend.append((case, impl_canon(src)))
+    return srcs
 
 
 def run(ctx: C.Ctx):
@@ -1284,10 +1593,14 @@ def run(ctx: C.Ctx):
                 'mixed kinds; empty containers; date/time/datetime/number/bool-looking and near-miss strings; keys over identifiers, '
                 'keywords, digits-first, punctuation, unicode, case variants, underscore variants, inflector words, names colliding '
                 'with Data/Container/typing names, repeated names at different paths, several key-less positions (lists of lists of objects under '
-                'sibling keys / next to nested objects / in sibling objects / at the root) — each unusual shape enabled per document with '
+                'sibling keys / next to nested objects / in sibling objects / at the root), keys whose class name is empty / blank / one letter / '
+                'digits only holding lists of objects, lists of lists and objects, positions collecting several scalar types (mixed lists at several '
+                'depths, sibling lists whose merge step adds two or more types at once) — each unusual shape enabled per document with '
                 'a small probability so that most documents are ones the unchanged generator handles) x 4 flag combinations: source '
                 'vs Lean module AST (ast + line scan), import as a real module, root class loads every source element, inferred '
-                'types, every key has a field, generation twice; A-then-B vs pristine B in forked children of a fresh process; the '
+                'types, every key has a field, generation twice; A-then-B vs pristine B in forked children of a fresh process; a sample '
+                '(corpus, many-types family, random documents) generated in fresh interpreters under PYTHONHASHSEED 0 / 1 / 7 / 42 / a seeded '
+                'random one and compared byte for byte with each other and with the text this process generated and loaded; the '
                 'CLI as a subprocess on temp files with a pre-existing output. Non-trivial = distinct (document, flags).')
     ctx.trusted += [
         'stdlib string tests (date/time/datetime.fromisoformat, str.isdecimal, float(), str.lower) and English.singularize are '
@@ -1304,6 +1617,8 @@ def run(ctx: C.Ctx):
     rec = SingRecorder()
     rec.install()
     reqs, pend = [], []
+    sample = []                               # documents for the cross-process comparison (run_hashseed)
+    n_sample_random = ctx.quick(60, 600)
     try:
         dedup = probe_dedup()
         rec.take()
@@ -1315,7 +1630,22 @@ def run(ctx: C.Ctx):
                 break
             if not ctx.begin_case(i):
                 continue
-            eval_doc(ctx, tm, rec, doc, ['corpus'], dedup, reqs, pend)
+            srcs = eval_doc(ctx, tm, rec, doc, ['corpus'], dedup, reqs, pend)
+            sample.append((doc, ['corpus'], srcs))
+        # directed families (their own generator, seeded from the run's seed, so that the main stream below is the same with and
+        # without them): keys with an empty / degenerate class name; positions collecting several scalar types
+        frng = random.Random(f'C19:{ctx.seed}:families')
+        for j in range(ctx.quick(140, 1600)):
+            i, idx = idx, idx + 1
+            if ctx.done(i):
+                break
+            doc, prof = gen_family_doc(frng, ('degenerate-name', 'many-types')[j % 2])
+            if not ctx.begin_case(i):
+                continue
+            srcs = eval_doc(ctx, tm, rec, doc, prof, dedup, reqs, pend)
+            if j % 2 == 1 or j % 8 == 0:
+                sample.append((doc, prof, srcs))
+        t0 = time.time()
         for j in range(n):
             i, idx = idx, idx + 1
             if ctx.done(i) or (ctx.only is None and time.time() - t0 > budget):
@@ -1323,7 +1653,9 @@ def run(ctx: C.Ctx):
             doc, prof = gen_doc(rng)
             if not ctx.begin_case(i):
                 continue
-            eval_doc(ctx, tm, rec, doc, prof, dedup, reqs, pend)
+            srcs = eval_doc(ctx, tm, rec, doc, prof, dedup, reqs, pend)
+            if j < n_sample_random:
+                sample.append((doc, prof, srcs))
         if rec.conflicts:
             w, a, b = rec.conflicts[0]
             ctx.current = None
@@ -1349,6 +1681,7 @@ def run(ctx: C.Ctx):
     if ctx.only is None:
         ctx.current = None
         run_history(ctx, history_docs(rng, ctx.quick(16, 160)))
+        run_hashseed(ctx, sample, HASHSEEDS + [str(random.Random(f'C19:{ctx.seed}:hashseed').randrange(2 ** 32))])
         check_cli(ctx, CLI_INPUTS if ctx.tier != 'quick' else CLI_INPUTS[:1] + CLI_INPUTS[5:7] + CLI_INPUTS[10:12])
 
 
@@ -1357,6 +1690,8 @@ def replay(obj):
     kind, case = obj['kind'], obj['case']
     if kind == 'history':
         return replay_history(case)
+    if kind.startswith('hashseed'):
+        return replay_hashseed(case)
     if kind == 'cli':
         content = None if case['content'] is None else case['content'].encode()
         rc, after, text = run_cli(case['input_kind'], content)
